@@ -172,7 +172,55 @@ def rule_threading(ctx):
         ctx.check(f"arguments.{a}" in src, 'R19.4/parser', f.construct(f"parser:{a}"), f"arguments.{a} registered", f"arguments.{a} is not registered on the find-snvs parser", f.where())
 
 
+# what pysam's pileup() does to reads and base calls unless told otherwise (pysam 0.24.1, libcalignmentfile.pyx: `stepper` "samtools",
+# min_base_quality 13, ignore_orphans True, ignore_overlaps True, max_depth 8000); none of them is a find-snvs option
+IMPLICIT_PILEUP_FILTERS = {
+    'min_base_quality': ("0", "base calls with quality below 13 are not counted"),
+    'ignore_orphans': ("False", "paired reads without the proper-pair flag are not counted"),
+    'ignore_overlaps': ("False", "of two overlapping mates only one is counted"),
+    'max_depth': (None, "depth is capped at 8000"),
+}
+
+
+def rule_implicit_filters(ctx):
+    """the depths are counts "among the reads that pass the configured read filters": every filter pileup() applies on its own
+    must be switched off (or be an option of the program); otherwise the reported depth differs from the pileup of the reads
+    the options select, and no option can change that"""
+    fq = FS + 'bam_region_depths'
+    f = ctx.func(fq)
+    r = ctx.recon(fq)
+    piles = [(c, n) for c, _, n in r.calls if c[1] == '.pileup']
+    ctx.need(len(piles) == 1, f"{fq}: one pileup call expected, found {len(piles)}")
+    c, node = piles[0]
+    given = dict(c[3])
+    for kw, (off, what) in sorted(IMPLICIT_PILEUP_FILTERS.items()):
+        con = f.construct(f"pileup({kw})")
+        v = given.get(kw)
+        if v is None:
+            ctx.violation('R19.5/implicit-pileup-filter', con, f"pileup() is called without {kw}=: {what}, whatever the read-filter options say", f.where(node))
+        elif off is not None and show(v) != off and v[0] == 'const':
+            ctx.violation('R19.5/implicit-pileup-filter', con, f"pileup({kw}={show(v)}): {what}", f.where(node))
+        else:
+            ctx.ok('R19.5/implicit-pileup-filter', con, f"{kw}={show(v)}")
+
+
+def rule_population_mean(ctx):
+    """the population frequency that is compared with --maf is the mean over the samples that have coverage (numpy.nanmean, as
+    for the ordering of the alleles and ADMF): with numpy.mean one sample without reads makes it nan and the position is dropped
+    (defect J)"""
+    fq = FS + 'write_vcf_block'
+    f = ctx.func(fq)
+    means = [n for n in ast.walk(f.node) if isinstance(n, ast.Call) and ast.unparse(n.func) in ('np.mean', 'np.nanmean', 'numpy.mean', 'numpy.nanmean')
+             and n.args and ast.unparse(n.args[0]) == 'allele_freq']
+    ctx.need(len(means) >= 2, f"{fq}: the mean allele frequencies (threshold and ordering) were not found")
+    for k, n in enumerate(means, 1):
+        ctx.check(ast.unparse(n.func).endswith('nanmean'), 'R19.2/population-mean', f.construct(f"mean frequency #{k}"), "mean over the samples with coverage",
+                  f"`{ast.unparse(n)[:60]}` is nan as soon as one sample has no reads at the position", f.where(n))
+
+
 def run(ctx):
+    rule_implicit_filters(ctx)
+    rule_population_mean(ctx)
     rule_kwargs(ctx)
     rule_thresholds(ctx)
     rule_refmasked(ctx)
